@@ -1,0 +1,53 @@
+//go:build verif
+
+package tendermint
+
+import (
+	"github.com/cosmos/cosmos-sdk/codec"
+	storetypes "github.com/cosmos/cosmos-sdk/store/v2/types"
+	sdk "github.com/cosmos/cosmos-sdk/types"
+
+	"github.com/cosmos/ibc-go/v11/modules/core/exported"
+)
+
+// Exported wrappers of unexported functions for the external verification harness (add-only).
+
+func VerifVerifyDelayPeriodPassed(ctx sdk.Context, store storetypes.KVStore, proofHeight exported.Height, delayTimePeriod, delayBlockPeriod uint64) error {
+	return verifyDelayPeriodPassed(ctx, store, proofHeight, delayTimePeriod, delayBlockPeriod)
+}
+
+func VerifPruneOldestConsensusState(cs *ClientState, ctx sdk.Context, cdc codec.BinaryCodec, clientStore storetypes.KVStore) {
+	cs.pruneOldestConsensusState(ctx, cdc, clientStore)
+}
+
+func VerifSetClientState(clientStore storetypes.KVStore, cdc codec.BinaryCodec, clientState *ClientState) {
+	setClientState(clientStore, cdc, clientState)
+}
+
+func VerifGetClientState(clientStore storetypes.KVStore, cdc codec.BinaryCodec) (*ClientState, bool) {
+	return getClientState(clientStore, cdc)
+}
+
+func VerifSetConsensusState(clientStore storetypes.KVStore, cdc codec.BinaryCodec, consensusState *ConsensusState, height exported.Height) {
+	setConsensusState(clientStore, cdc, consensusState, height)
+}
+
+func VerifDeleteConsensusState(clientStore storetypes.KVStore, height exported.Height) {
+	deleteConsensusState(clientStore, height)
+}
+
+func VerifSetConsensusMetadata(ctx sdk.Context, clientStore storetypes.KVStore, height exported.Height) {
+	setConsensusMetadata(ctx, clientStore, height)
+}
+
+func VerifSetConsensusMetadataWithValues(clientStore storetypes.KVStore, height, processedHeight exported.Height, processedTime uint64) {
+	setConsensusMetadataWithValues(clientStore, height, processedHeight, processedTime)
+}
+
+func VerifDeleteConsensusMetadata(clientStore storetypes.KVStore, height exported.Height) {
+	deleteConsensusMetadata(clientStore, height)
+}
+
+func VerifBigEndianHeightBytes(height exported.Height) []byte {
+	return bigEndianHeightBytes(height)
+}
